@@ -164,3 +164,21 @@ Definition answer_ok3_st (s : st) (a : answer) : bool := answer_ok3 (last_bytes 
    each answer is invoked on what the previous one left *)
 Fixpoint kept_chain (lb lbb : N) (l : list answer) : bool :=
   match l with [] => true | a :: t => carry_keptb lb lbb a && kept_chain (a_lb a) (a_lbb a) t end.
+
+(* ---- the one-pass/two-pass path (quality 0/1): the encoder's position counters stay 0 there and the
+        recorded a_lfp is meaningless; the slice an invocation was given is determined by a_block (the
+        glue checks a_block = min(2^lgwin, bytes offered) and consumes exactly that much input).  [repos]
+        gives each answer the flush position that is the running sum of the blocks - g_answer_bits does
+        not depend on a_lfp, so faithful_at of a repositioned answer is a statement about the answer's
+        bits and the input slice [sum of earlier blocks, + a_block). ---- *)
+Definition with_lfp (a : answer) (p : N) : answer :=
+  {| a_fast := a_fast a; a_is_last := a_is_last a; a_force_flush := a_force_flush a; a_result := a_result a;
+     a_inplace := a_inplace a; a_block := a_block a; a_out := a_out a; a_lb := a_lb a; a_lbb := a_lbb a;
+     a_ipos := a_ipos a; a_lfp := p; a_lpp := a_lpp a; a_hint := a_hint a; a_no := a_no a |}.
+Fixpoint repos (p : N) (l : list (N * N * answer)) : list (N * N * answer) :=
+  match l with
+  | [] => []
+  | c :: t => let q := p + a_block (snd c) in (fst c, with_lfp (snd c) q) :: repos q t
+  end.
+(* what a check applies to a fast answer and the encoder state before the invocation: nothing beyond answer_ok3 *)
+Definition fast_answer_ok3 (s : st) (a : answer) : bool := a_fast a && answer_ok3_st s a.
